@@ -20,7 +20,8 @@ LEVEL_TEXT = ("Complete enumeration (ctx.exhaustive) of: statement kind {simple,
               "its prepared statement, batch} x consistency {unset, ANY(=0), QUORUM} x serial {unset, SERIAL, LOCAL_SERIAL} x retry policy {unset, set} x "
               "fetch size {unset, None, 0, 37} x idempotent x timeout argument {omitted, None, 3.5} x profile choice {omitted, EXEC_PROFILE_DEFAULT, 16 "
               "set/unset patterns by name and by instance} x default profile {all unset, all set} x protocol {2, 3, 4}; and of the legacy mode: 216 "
-              "Session/Cluster settings x a reduced statement lattice x protocol; plus random samples of the full 128-pattern profile product. "
+              "Session/Cluster settings (policy given to the constructor) + 2 x 36 settings with Cluster.load_balancing_policy assigned after construction / "
+              "replacing the constructor's, default_retry_policy given to the constructor or assigned later, x a reduced statement lattice x protocol; plus random samples of the full 128-pattern profile product. "
               "Held-on-observed for every enumerated combination.")
 LEVEL_NOTE = ("Trusted base: sim/world.py, sim/node.py, spec/frames.py and the 12-line reference function. 'Unset' profile options are judged against "
               "the documented defaults (LOCAL_ONE, no serial level, RetryPolicy, 10 s, named_tuple_factory, TokenAware(DCAware), no speculative "
@@ -53,7 +54,7 @@ def reference(own, timeout_arg, cfg, session_fetch_size):
 
 class World46(object):
     """one cluster/session in one world; issues statements and compares"""
-    def __init__(self, ctx, proto, legacy, default_mask, masks):
+    def __init__(self, ctx, proto, legacy, default_mask, masks, legacy_variant='constructor'):
         from sim.env import SimEnv
         from sim import world as W
         from cassandra import ConsistencyLevel as CL
@@ -101,7 +102,22 @@ class World46(object):
             if legacy:
                 self.rp_legacy = R()
                 self.legacy_lbp = OnlyHost(NODE_B)
-                self.cluster = self.env.cluster(contact_points=[NODE_B], protocol_version=proto, load_balancing_policy=self.legacy_lbp)
+                self.initial_retry_cfg = 'default-retry-policy'
+                if legacy_variant == 'constructor':
+                    # the policy is handed to the constructor
+                    self.cluster = self.env.cluster(contact_points=[NODE_B], protocol_version=proto, load_balancing_policy=self.legacy_lbp)
+                elif legacy_variant == 'assigned':
+                    # legacy mode entered through the constructor's default_retry_policy; the load-balancing policy is assigned afterwards
+                    self.initial_retry_cfg = R()
+                    self.cluster = self.env.cluster(contact_points=[NODE_B], protocol_version=proto, load_balancing_policy=None,
+                                                    default_retry_policy=self.initial_retry_cfg)
+                    self.cluster.load_balancing_policy = self.legacy_lbp
+                elif legacy_variant == 'replaced':
+                    # a constructor policy replaced before connecting
+                    self.cluster = self.env.cluster(contact_points=[NODE_B], protocol_version=proto, load_balancing_policy=OnlyHost(NODE_A))
+                    self.cluster.load_balancing_policy = self.legacy_lbp
+                else:
+                    raise ValueError(legacy_variant)
                 self.initial_retry = self.cluster.default_retry_policy
             else:
                 eps = {}
@@ -399,16 +415,18 @@ def run(ctx):
                     world.close()
                 ctx.count("worlds_profiles_mode")
         # ---------------- layer 2: legacy mode, complete product of Session / Cluster settings
-        for proto in (2, 3, 4):
+        # (the policy given to the constructor: all 216 settings; assigned after construction / replacing the constructor's: 36 settings each)
+        for proto, variant in itertools.product((2, 3, 4), ('constructor', 'assigned', 'replaced')):
             if out_of_time():
                 break
-            world = World46(ctx, proto, True, 0, [])
+            world = World46(ctx, proto, True, 0, [], variant)
             try:
                 s, c = world.session, world.cluster
                 first = True
+                full = variant == 'constructor'
                 for (scl_cfg, tmo_cfg, rf_cfg, fs_cfg, rp_cfg, cl_cfg) in itertools.product(
-                        [None, CL.SERIAL], [10.0, None, 4.0], [named_tuple_factory, dict_factory], [5000, None, 123], [False, True],
-                        [CL.LOCAL_ONE, CL.ANY, CL.THREE]):
+                        [None, CL.SERIAL], [10.0, None, 4.0], [named_tuple_factory, dict_factory] if full else [named_tuple_factory],
+                        [5000, None, 123] if full else [5000], [False, True], [CL.LOCAL_ONE, CL.ANY, CL.THREE]):
                     if out_of_time():
                         break
                     if not first:
@@ -420,20 +438,21 @@ def run(ctx):
                         c.default_retry_policy = world.rp_legacy if rp_cfg else world.initial_retry
                     s.default_fetch_size = world.session_fetch_size = fs_cfg
                     first = False
-                    cfg = {'cl': cl_cfg, 'scl': scl_cfg, 'rp': world.rp_legacy if rp_cfg else 'default-retry-policy', 'timeout': tmo_cfg,
+                    cfg = {'cl': cl_cfg, 'scl': scl_cfg, 'rp': world.rp_legacy if rp_cfg else world.initial_retry_cfg, 'timeout': tmo_cfg,
                            'row_factory': rf_cfg, 'lbp': world.legacy_lbp, 'spec': None}
                     for (kind, cl, scl, rp, fs, idem) in statement_lattice(CL, False):
                         for tmo in timeouts:
                             if not mine():
                                 continue
-                            label = "v%d legacy cl=%s scl=%s timeout=%s rf=%s fetch=%s retry=%s %s cl=%s scl=%s rp=%s fs=%s timeout=%s" % (
-                                proto, cl_cfg, scl_cfg, tmo_cfg, rf_cfg.__name__, fs_cfg, rp_cfg, kind, cl, scl, rp, fs, tmo)
+                            label = "v%d legacy(lbp %s) cl=%s scl=%s timeout=%s rf=%s fetch=%s retry=%s %s cl=%s scl=%s rp=%s fs=%s timeout=%s" % (
+                                proto, variant, cl_cfg, scl_cfg, tmo_cfg, rf_cfg.__name__, fs_cfg, rp_cfg, kind, cl, scl, rp, fs, tmo)
                             one(world, label, True, kind, cl, scl, rp, fs, idem, tmo, UNSET, cfg)
                     ctx.count("legacy_configurations_completed")
                 world.drain()
             finally:
                 world.close()
             ctx.count("worlds_legacy_mode")
+            ctx.count("worlds_legacy_mode_lbp_" + variant)
         ctx.exhaustive = bool(state['complete'])
         # ---------------- layer 3: samples of the full profile product (all 128 set/unset patterns, default_fetch_size 5000 / None / 123)
         rng = ctx.rng
@@ -484,4 +503,5 @@ def run(ctx):
     ctx.floor_counters = {"statements_issued_and_compared": 50000, "frames_parsed_query": 10000, "frames_parsed_execute": 20000, "frames_parsed_batch": 2000,
                           "cases_effective_consistency_ANY": 5000, "cases_statement_consistency_overrides_config": 5000,
                           "cases_statement_retry_policy_overrides_config": 5000, "cases_bound_statement_own_or_inherited_fetch_size": 5000,
-                          "cases_timeout_from_config": 5000, "worlds_profiles_mode": 1, "worlds_legacy_mode": 1}
+                          "cases_timeout_from_config": 5000, "worlds_profiles_mode": 1, "worlds_legacy_mode": 1,
+                          "worlds_legacy_mode_lbp_assigned": 1, "worlds_legacy_mode_lbp_replaced": 1}
